@@ -69,6 +69,9 @@ MUTANTS = [
     ("lpop-only-nil-error-acceptable", R, fn("LPopCtx", "}, acceptable)", "}, func(err error) bool { return err == nil })")),
     ("hgetall-canceled-not-acceptable", R, fn("HGetAllCtx", "}, acceptable)", "}, func(err error) bool { return err == nil || err == red.Nil })")),
     ("kv-ttlctx-drops-context", KV, "return node.TTLCtx(ctx, key)", "return node.TTL(key)"),
+    # shard faults (third round)
+    ("seeded-kv-del-stops-at-failed-shard", "PATCH", "/verif/seeded/C12/kv-del-stops-at-failed-shard/patch.diff"),
+    ("kv-del-shard-error-not-reported", KV, "if v, e := node.DelCtx(ctx, key); e != nil {\n\t\t\tbe.Add(e)", "if v, e := node.DelCtx(ctx, key); e != nil {\n\t\t\t_ = e"),
     # kv
     ("kv-hdel-other-key", KV, "return node.HDelCtx(ctx, key, field)", "return node.HDelCtx(ctx, field, key)"),
     ("kv-get-wrong-node", KV, fn("GetCtx", "node, err := s.getRedis(key)", "node, err := s.getRedis(key + \"x\")")),
